@@ -18,7 +18,7 @@ impl<T: ?Sized + Sync> P<T> { const SYNC: bool = true; }
 macro_rules! row {
     ($w:expr, $i:expr, $conc:expr, $is:expr, $iy:expr, $t:ty) => {
         println!("{} {} conc={} item_send={} item_sync={} => send={} sync={}   # {}", $w, $i, $conc, $is, $iy,
-                 <P<$t>>::SEND as u8, <P<$t>>::SYNC as u8, stringify!($t));
+                 <P<$t>>::SEND as u8, <P<$t>>::SYNC as u8, stringify!($t).split_whitespace().collect::<Vec<_>>().join(" "));
     };
 }
 macro_rules! iters {
@@ -39,6 +39,14 @@ macro_rules! iters {
         row!("ADet", "Work", $conc, $is, $iy, AsyncDetached<AsyncWorkIter<'static, $B>, $B>);
         row!("ADet", "Cons", $conc, $is, $iy, AsyncDetached<AsyncConsIter<'static, $B, true>, $B>);
         row!("ADet", "Cons", $conc, $is, $iy, AsyncDetached<AsyncConsIter<'static, $B, false>, $B>);
+        // the futures of the async operations borrow their iterator mutably: never more sendable than the iterator itself
+        row!("Fut", "Prod", $conc, $is, $iy, mutringbuf::iterators::async_iterators::MRBFuture<'static, AsyncProdIter<'static, $B>, (), (), true>);
+        row!("Fut", "Prod", $conc, $is, $iy, mutringbuf::iterators::async_iterators::MRBFuture<'static, AsyncProdIter<'static, $B>, usize, (), true>);
+        row!("Fut", "Work", $conc, $is, $iy, mutringbuf::iterators::async_iterators::MRBFuture<'static, AsyncWorkIter<'static, $B>, (), (), true>);
+        row!("Fut", "Cons", $conc, $is, $iy, mutringbuf::iterators::async_iterators::MRBFuture<'static, AsyncConsIter<'static, $B, true>, (), (), true>);
+        row!("Fut", "Cons", $conc, $is, $iy, mutringbuf::iterators::async_iterators::MRBFuture<'static, AsyncConsIter<'static, $B, false>, usize, (), false>);
+        row!("MutRef", "Prod", $conc, $is, $iy, &'static mut AsyncProdIter<'static, $B>);
+        row!("MutRef", "Cons", $conc, $is, $iy, &'static mut ConsIter<'static, $B, false>);
         // references to iterators are never Send (iterators are never Sync)
         row!("Ref", "Prod", $conc, $is, $iy, &'static ProdIter<'static, $B>);
         row!("Ref", "Work", $conc, $is, $iy, &'static Detached<WorkIter<'static, $B>>);
